@@ -29,7 +29,7 @@ func decodeSet(p *Program) []*ssa.Function {
 	}
 	for _, l := range [][]*ssa.Function{ro.Readers, ro.PadFns, ro.Detectors} {
 		for _, f := range l {
-			roots[f] = true
+			roots[p.orig(f)] = true // bounds are proved function by function on the code as written
 		}
 	}
 	cg := p.CallGraph()
@@ -44,7 +44,7 @@ func decodeSet(p *Program) []*ssa.Function {
 			return
 		}
 		seen[f] = true
-		if n := cg.Nodes[f]; n != nil {
+		if n := cgNodeOf(cg, f); n != nil {
 			for _, e := range n.Out {
 				if !closureCanExist(p, e.Callee.Func) {
 					continue
@@ -234,7 +234,7 @@ func closureCanExist(p *Program, f *ssa.Function) bool {
 		return true
 	}
 	parent := outermost(f)
-	node := p.CallGraph().Nodes[parent]
+	node := p.cgNode(parent)
 	if node == nil {
 		return false
 	}
